@@ -435,9 +435,9 @@ func (vc *FuncVC) wellTyped(v Val, st *State) Term {
 	case *FV:
 		switch x.T.Underlying().(type) {
 		case *types.Slice:
-			// a slice that exists was allocated: its backing array is at most
-			// maxAlloc = 2^48 bytes on amd64 (runtime/malloc.go)
-			big62 := enc.idxLit(maxAllocElems(x.T.Underlying().(*types.Slice).Elem()))
+			// a slice that exists fits in the 47-bit user address space of amd64
+			// (a request is refused by runtime.makeslice above maxAlloc = 2^48)
+			big62 := enc.idxLit(maxAllocElems(x.T.Underlying().(*types.Slice).Elem()) / 2)
 			return mkAnd(
 				enc.idxLe(enc.idxLit(0), x.Off()), enc.idxLe(x.Off(), big62),
 				enc.idxLe(enc.idxLit(0), x.Len()), enc.idxLe(x.Len(), x.Cap()), enc.idxLe(x.Cap(), big62),
@@ -449,7 +449,7 @@ func (vc *FuncVC) wellTyped(v Val, st *State) Term {
 			return mkAnd(app(SBool, ">=", x.L[0], intLit64(0)), mkImplies(mkEq(x.L[0], intLit64(0)), mkEq(x.L[1], intLit64(0))))
 		case *types.Basic:
 			if isString(x.T) {
-				big62 := enc.idxLit(1 << 48)
+				big62 := enc.idxLit(1 << 47)
 				return mkAnd(enc.idxLe(enc.idxLit(0), x.Off()), enc.idxLe(x.Off(), big62),
 					enc.idxLe(enc.idxLit(0), x.Len()), enc.idxLe(x.Len(), big62))
 			}
